@@ -265,6 +265,9 @@ def run(ctx):
                     ctx.count('model_%s_%s' % (p, 'ok' if 'ok' in rep['ok'][p] else rep['ok'][p]['err']))
             # properties hit by the recorded finding F12 are excluded from the tie only when both sides say so
             L.compare(ctx, c, rep, 'c01.estimate', parts=('nd',))
+    L.floors(ctx, {'unit_vectors': 1500, 'corr_cases': 2000, 'model_missing': 100, 'model_emptyRange': 20, 'model_invalidSet': 9,
+                   'exact_comparisons': 200, 'model_cp_incomplete': 200, 'model_h_incomplete': 50, 'count_fractional': 300,
+                   'count_negative': 300, 'count_zero': 200, 'size_16+': 40, 'relational': 60, 'fresh_library': 1, 'corpus': 1})
 
 
 def replay(ctx, rec, batch=None):
